@@ -48,7 +48,9 @@ m={"version":1,"setup_cmd":"./check --setup",
   "baseline_off_cmd":"cd /repo && cargo test --workspace --no-fail-fast --offline",
   "source_commits":hook_commits,"add_only":True},
  "engines":[{"name":"wfsim","path":"/verif/sim","serves_properties":sorted(claimed),
-   "kind_free_text":"deterministic simulator: choice tape (one seed = one run), one-baton scheduler over parked real OS threads, fault-injecting Read/Write/callback seams, reference models, tape minimiser and replay; 16 pinned worker processes"}],
+   "kind_free_text":"deterministic simulator: choice tape (one seed = one run), one-baton scheduler over parked real OS threads, fault-injecting Read/Write/callback/caller-buffer seams, reference models, paired worker processes (SIMD latch, compile order) with cross-process and restart differentials, tape minimiser and replay (also for runs that kill their process); 16 pinned worker processes"},
+  {"name":"wfmiri","path":"/verif/miri","serves_properties":["C18"],
+   "kind_free_text":"reduced C18 workload (3 threads, shared and per-thread filters and contexts, first use of the lazy latch raced, every result compared with a sequential baseline) run under cargo +nightly miri with -Zmiri-many-seeds: deterministic interpreter schedules below compiled-node granularity, data-race and UB detection"}],
  "checks":checks,
  "not_applicable":[{"property_id":k,"reason":v} for k,v in sorted(NA.items()) if k not in claimed],
  "notes":"Technique: deterministic simulation with fault injection only. Properties whose truth depends on nothing but the caller's arguments are listed as not applicable (DESIGN.md §3). Exit codes: 0 held, 1 VIOLATION, 2 harness error. Genuine defects found are repaired by fix: commits in /repo or listed in known_findings.json (fixed entries suppress nothing)."}
